@@ -153,6 +153,10 @@ def check_C14(tier, seed):
             if k % 2:
                 t += [97]
             extra.append(t)
+    # every control character has a picture of its own
+    ctl = [c for c in range(0, 32) if c != 10] + [127, 32]
+    for k in range(0, len(ctl), 3):
+        extra.append([97] + ctl[k:k + 3] + [10, 20013] + ctl[k:k + 2])
     d = peg.tmpdir("c14")
     ep = os.path.join(d, "extra.json")
     json.dump(extra, open(ep, "w"))
@@ -188,6 +192,28 @@ def check_C14(tier, seed):
                 exp = {"nums": e["nums"], "dots": e["dots"], "marks": e["marks"]}
                 if x["other"] or got != exp:
                     mism.append((r, kind, ident, exp, got if not x["other"] else {"unparsed": x["other"], **got}))
+                elif "custom" in x:
+                    # custom FormatOption (reachable with the verif re-export only): same text once the brackets are removed, the
+                    # span formatter is handed exactly the highlighted pieces of the specification, markers and numbers go to theirs
+                    cu = x["custom"]
+                    ctx.cov["evaluations"] += 1
+                    exp_s = [uncps(h) for h in e["hl"]]
+                    exp_m = [ch * n for ch, _, n in e["marks"]]
+                    exp_n = set(["|"] + [str(n) for n, _ in e["nums"]])
+                    bad = None
+                    if cu.get("panic") or cu.get("fmt_error"):
+                        bad = ("custom FormatOption", "a rendering", cu)
+                    elif not cu["eq"] or cu["nested"]:
+                        bad = ("custom FormatOption: text without the brackets", "the default rendering", cu)
+                    elif cu["s"] != exp_s:
+                        bad = ("custom FormatOption: pieces handed to the span formatter", exp_s, cu["s"])
+                    elif cu["m"] != exp_m:
+                        bad = ("custom FormatOption: pieces handed to the marker formatter", exp_m, cu["m"])
+                    elif not all(t.strip() in exp_n for t in cu["n"]):
+                        bad = ("custom FormatOption: pieces handed to the number formatter", sorted(exp_n), cu["n"])
+                    if bad:
+                        ctx.violation("Display of %s %s of %r: %s: expected %s observed %s" % (kind[:-1], ident, uncps(r["s"]), bad[0], json.dumps(bad[1], ensure_ascii=False)[:150], json.dumps(bad[2], ensure_ascii=False)[:150]),
+                                      {"kind": "text", "string": uncps(r["s"]), "cps": r["s"], "what": kind, "at": ident, "field": bad[0], "expected": bad[1], "observed": bad[2]})
         if len(ctx.cov["samples"]) < 2 and len(r["s"]) == 3 and 10 in r["s"][:2]:
             ctx.cov["samples"].append({"string": r["s"], "span_layouts": r["spans"][:4]})
     if mism:
@@ -407,6 +433,17 @@ def check_C11(tier, seed):
         return []      # verdicts are C01's business; here only that the call returns
     rows = props.run_generic(ctx, "c11", allg, "s", cmp_term, with_pest=False)
     ctx.notes["wellfounded_grammars_run"] = len(allg)
+    # "emits code that compiles" holds under every option: recursion through every operator / rule kind with boxing reduced, both AST paths
+    recg = []
+    for g in fam_opt(tier):
+        if g["id"] in ("op7", "op8", "op0"):
+            for k, opts in enumerate([{"box_only_if_needed": True}, {"box_only_if_needed": True, "pest_optimizer": False},
+                                      {"box_only_if_needed": True, "emit_rule_reference": True, "emit_tagged_node_reference": True, "do_not_emit_span": True}]):
+                recg.append(dict(g, id="%sb%d" % (g["id"], k), opts=opts, maxlen=2))
+    for ast, sel in (("opt", lambda o: o.get("pest_optimizer", True)), ("src", lambda o: not o.get("pest_optimizer", True))):
+        part = [g for g in recg if sel(g["opts"])]
+        props.run_generic(ctx, "c11o" + ast, part, "s", cmp_term, with_pest=False, ast=ast)
+    ctx.notes["recursive_grammars_compiled_with_reduced_boxing"] = len(recg)
     return ctx.finish(rule="PegValidate.tla (pest's validate_ast transcribed: non-failing / non-progressing repetition bodies, unreachable alternatives, WHITESPACE/COMMENT, left recursion) gives a verdict for every grammar of family ill (hand-written ill-formed grammars and near-misses + seeded mutations of random grammars); pest_meta is its witness; pest_typed_generator::derive_typed_parser is called as a library under catch_unwind with and without pest_optimizer and must panic exactly on the rejected ones (evaluations; non-trivial = rejected grammars). Accepted well-founded grammars are compiled (harness build) and TLC checks <>(pc = done) under weak fairness on every (rule, input) (M10) while the real parser runs each under a watchdog.")
 
 
@@ -479,6 +516,19 @@ def check_C19(tier, seed):
                     d.append(("element count within MIN..MAX", [c["mn"], c["mx"]], pa["n"]))
             if not d and (ch["ok"] != pa["ok"] or (pa["ok"] and (ch["end"] != pa["end"] or ch["stk"] != pa["stk"]))):
                 d.append(("check vs parse", pa, ch))
+            # the never-failing interface (NeverFailedTypedNode::parse_with / check_with) of the MIN = 0 cells denotes the same match
+            if not d and c.get("nf"):
+                ctx.cov["evaluations"] += 1
+                for nm in ("nf_parse", "nf_check"):
+                    x = o.get(nm)
+                    if not isinstance(x, dict) or "panic" in x:
+                        d.append((nm, "a result", x))
+                    elif not rec["ok"]:
+                        d.append((nm + ": the model says a MIN = 0 repetition failed", None, x))
+                    elif x["end"] != rec["end"] or x["stk"] != rec["stk"] or (nm == "nf_parse" and (x["n"] != pa["n"] or x["dbgh"] != pa["dbgh"])):
+                        d.append((nm + " vs model / try_parse_partial_with", {"end": rec["end"], "stk": rec["stk"], "n": pa["n"]}, x))
+                    if d:
+                        break
         if d:
             f, e, ob = d[0]
             ctx.violation("%s: cell %s on %r: expected %s observed %s" % (f, {k: c[k] for k in ("kind", "ek", "skip", "mn", "mx")}, uncps(j["inp"]), json.dumps(e)[:120], json.dumps(ob)[:160]),
@@ -938,6 +988,19 @@ def fam_opt(tier):
                       inputs=[cps(x) for x in ["a-a", "a(b-b)a", "aaa", "a(bb)-a", "b(a(b-b)a)b"]]))
         g.append(dict(id="op5", text=ws + '\nCOMMENT = _{ "#" ~ (!"#" ~ ANY)* ~ "#" }\ndoc = { SOI ~ (item ~ ";")* ~ EOI }\nitem = { key ~ "=" ~ val }\nkey = @{ ASCII_ALPHA+ }\nval = { key | "[" ~ val* ~ "]" }',
                       alphabet=cps("a=;[] #"), maxlen=3, inputs=[cps(x) for x in ["a=a;", "a = [a a];", "a=[[a]a];a=a;", "a #c# = a ;", "a=[;", "a=a"]]))
+    # recursion through every operator and every rule kind, direct and mutual, in both declaration orders: whichever rule the
+    # reachability analysis leaves unboxed, the types must stay finite ("recursive grammars still compile when boxing is reduced")
+    g.append(dict(id="op7", text="\n".join([
+        'd0 = { "(" ~ d0? ~ ")" }', 'd1 = ${ "(" ~ d1? ~ ")" }', 'd2 = @{ "(" ~ d2? ~ ")" }', 'd3 = _{ "(" ~ d3? ~ ")" }', 'd4 = !{ "(" ~ d4? ~ ")" }',
+        'd5 = { "(" ~ (d5 | "x") ~ ")" }', 'd6 = ${ "a" ~ (&d6 ~ "a")? }', 'd7 = { "a" ~ (!d7 ~ "b")? }', 'd8 = { "(" ~ d8* ~ ")" }',
+        'd9 = ${ "(" ~ PUSH(d9)? ~ ")" ~ DROP? }', 'd10 = { "(" ~ (d10 ~ ",")+ ~ ")" | "x" }', 'd11 = @{ "a" ~ (&d11 ~ "a")? }', 'd12 = { ("(" ~ d12 ~ ")"){1,2} | "x" }']),
+        alphabet=cps("()xab,"), maxlen=3, inputs=[cps(x) for x in ["(())", "((()))", "(x)", "((x))", "aaa", "aaaa", "ab", "aab", "(()())", "((x,),)", "(x,x,)", "(x)(x)", "((x)(x))"]]))
+    g.append(dict(id="op8", text="\n".join([
+        'ma = { "a" ~ (&mb ~ "b")? }', 'mb = { "b" ~ ma? }', 'mc = ${ "[" ~ md? ~ "]" }', 'md = { "<" ~ mc? ~ ">" }', 'me = { "<" ~ mf? ~ ">" }', 'mf = ${ "[" ~ me? ~ "]" }',
+        'mg = @{ "(" ~ mh? ~ ")" }', 'mh = _{ "a" ~ mg ~ "a" | "b" }', 'mi = !{ "a" ~ (mj | "b") }', 'mj = { "b" ~ (!mi ~ "b" | mi) }',
+        't1 = { "a" ~ t2? }', 't2 = ${ "b" ~ (&t3 ~ "(")? }', 't3 = { "(" ~ t1? ~ ")" }', 'u1 = ${ "a" ~ (u2 | "b") }', 'u2 = ${ "(" ~ PUSH(u1) ~ ")" ~ POP }']),
+        alphabet=cps("ab()[]<>"), maxlen=3, inputs=[cps(x) for x in ["ab", "abab", "bab", "[<[]>]", "<[<>]>", "[<>]", "(a(b)a)", "(b)", "a(b)a", "abab", "abbb", "babb", "ab(", "ab(a)", "ab(ab(a))",
+                                                                         "a(ab)ab", "a(a(ab)ab)a(ab)ab"]]))
     import re
     for x in g:      # the skip rules themselves as entry rules are C01's known finding, not an option effect
         x["entries"] = [n for n in re.findall(r"(?m)^(\w+)\s*=", x["text"]) if n not in ("WHITESPACE", "COMMENT")]
